@@ -19,7 +19,8 @@ RULE = (
     "in [3,25] or infinite, triggered at start() or by an event, on both engines; plus bursts of N > maxIterations "
     "external events through send() and send_events(), and (sustained) a producer landing one external event inside each "
     "of more than maxIterations consecutive suspended macrosteps (C04 harness, exactly-once law); the raise template also "
-    "comes in a `quiet` variant whose chain is interleaved with events nobody feeds on. Oracle (step counts, not wall clock): one start()/send() executing "
+    "comes in a `quiet` variant whose chain is interleaved with events nobody feeds on; (always-batch) K batched events "
+    "each followed by its own short `always` chain, K x chain > maxIterations, all of which must run to their end. Oracle (step counts, not wall clock): one start()/send() executing "
     "more than 50 x maxIterations transitions/events is non-termination; the async run loop must not process more than "
     "maxIterations+2 queued events inside one event-loop iteration (recorded per on_event_received); after a cut the "
     "configuration is legal and a fresh PING event is handled; a chain with L <= maxIterations runs exactly L steps and "
@@ -41,7 +42,7 @@ def plan(tier):
 
 def strategy(tier, campaign):
     return st.fixed_dictionaries({
-        "kind": st.sampled_from(KINDS + ["burst", "sustained"]),
+        "kind": st.sampled_from(KINDS + ["burst", "sustained", "always-batch"]),
         "engine": st.sampled_from(["sync", "async"]),
         "maxit": st.integers(3, 25),
         "rel": st.sampled_from(["below", "just-below", "at", "above", "far-above", "inf"]),
@@ -195,9 +196,44 @@ def _check_sustained(case) -> CaseResult:
     return res
 
 
+def _check_always_batch(case) -> CaseResult:
+    """K external events in one send_events() batch, each followed by its own short `always` chain
+    (c steps, c < maxIterations) that returns to the idle state; K*c > maxIterations. Every chain is
+    shorter than the bound, so every one of them must run to its natural end: the bound is per
+    macrostep, not per drain."""
+    res = CaseResult()
+    engine, m = case["engine"], case["maxit"]
+    c = min(case["cycle"], m - 1)
+    k = m // c + 2
+    root = {"key": "m", "kind": "compound", "initial": "idle", "children": [
+        {"key": "idle", "kind": "atomic", "on": [["JOB", [{"target": ["s0"], "actions": []}]]]}],
+        "on": [["PING", [{"target": None, "actions": [{"k": "mark", "name": "pong"}]}]]]}
+    for i in range(c):
+        nxt = [f"s{i + 1}"] if i + 1 < c else ["idle"]
+        root["children"].append({"key": f"s{i}", "kind": "atomic", "always": [{"target": nxt, "actions": [INC]}]})
+    spec = {"id": "m", "root": root, "context": {"n": 0}, "maxIterations": m, "tables": {}, "services": {}}
+    finalize(spec)
+    hist = [["batch", [["JOB", i] for i in range(k)]], ["send", "PING", 999]]
+    run = drivers.ENGINES[engine](spec, hist, {"budget": 50 * m * 8 + 400, "loop_budget": 200000})
+    res.sample = {"case": case, "events": k, "always_steps_per_event": c, "maxIterations": m}
+    res.classes.append("always-batch")
+    res.nontrivial = True
+    res.nontrivial_keys = [case_fp(["always-batch", engine, m, c])]
+    if run.create_exc or run.aborted:
+        res.inconclusive = run.aborted or "create-exc"
+        return res
+    last = run.steps[-1]
+    n = last.ctx.get("n") if isinstance(last.ctx, dict) else None
+    if n != k * c or "m.idle" not in last.cfg:
+        res.violate(f"{engine}|short-chains-cut-within-one-drain|always-batch", {"events": k, "steps_per_event": c, "maxIterations": m, "n": n, "want": k * c, "cfg": sorted(last.cfg)})
+    return res
+
+
 def check_case(case) -> CaseResult:
     if case["kind"] == "sustained":
         return _check_sustained(case)
+    if case["kind"] == "always-batch":
+        return _check_always_batch(case)
     res = CaseResult()
     spec = build_spec(case)
     hist = history_of(case)
